@@ -168,36 +168,19 @@ pub fn totality(z: &Zone, trans: &[i64], offs: &[i32], rng: &mut Rng) -> Option<
     None
 }
 
-/// Transition instants and offsets of a parsed zone, recovered from its Debug rendering (the
-/// accessor is deliberately small; this is only used to aim the totality sweep).
-fn debug_numbers(dbg: &str) -> (Vec<i64>, Vec<i32>) {
-    let mut trans = Vec::new();
-    let mut offs = Vec::new();
-    let grab = |key: &str, s: &str| -> Vec<i64> {
-        let mut v = Vec::new();
-        let mut rest = s;
-        while let Some(p) = rest.find(key) {
-            rest = &rest[p + key.len()..];
-            let end = rest.find(|c: char| !(c.is_ascii_digit() || c == '-')).unwrap_or(rest.len());
-            if let Ok(x) = rest[..end].parse::<i64>() {
-                v.push(x);
-            }
-        }
-        v
-    };
-    // only the transitions list, not the leap seconds
-    let head = dbg.split("leap_seconds:").next().unwrap_or(dbg);
-    trans.extend(grab("unix_leap_time: ", head));
-    for o in grab("ut_offset: ", dbg) {
-        offs.push(o as i32);
-    }
-    offs.sort();
-    offs.dedup();
+/// Transition instants (a sample of them) and the distinct offsets of a zone, to aim the sweeps.
+fn zone_numbers(m: &ZoneModel) -> (Vec<i64>, Vec<i32>) {
+    let mut trans: Vec<i64> = m.trans.iter().map(|t| t.0).collect();
+    let offs = m.offsets();
     if trans.len() > 40 {
         let keep: Vec<i64> = trans.iter().take(10).chain(trans.iter().rev().take(10)).copied().collect();
         trans = keep;
     }
     (trans, offs)
+}
+
+fn debug_numbers(z: &Zone) -> (Vec<i64>, Vec<i32>) {
+    zone_numbers(&ZoneModel::from_view(&z.view()))
 }
 
 #[derive(Default, Serialize, Deserialize, Clone)]
@@ -225,7 +208,7 @@ pub fn evaluate(input: &Input, bytes: &[u8], rng: &mut Rng, tally: &mut Tally) -
     if max_one > 1024 && ratio > tally.max_alloc_ratio_permille {
         tally.max_alloc_ratio_permille = ratio;
     }
-    if max_one > 8 * len + 1024 || total > 64 * len + 4096 {
+    if max_one > 8 * len + 4096 || total > 64 * len + 16384 {
         return prob(
             "alloc-beyond-input".into(),
             format!("{}: input of {} bytes, largest single allocation {} bytes, total {} bytes", input.what, len, max_one, total),
@@ -260,7 +243,10 @@ pub fn evaluate(input: &Input, bytes: &[u8], rng: &mut Rng, tally: &mut Tally) -
     if input.expect == Expect::Survive {
         tally.survive_accepted += 1;
     }
-    let dbg = z.debug();
+    // what the reader built, rendered by this harness from the structured view (chrono's own
+    // Debug output is used for messages only)
+    let built = ZoneModel::from_view(&z.view());
+    let dbg = built.debug();
     if let (Expect::Accept, Some(want)) = (input.expect, &input.expected_debug) {
         if dbg != *want {
             return prob("readback-differs".into(), format!("{}: written {} read {}", input.what, want, dbg));
@@ -278,7 +264,7 @@ pub fn evaluate(input: &Input, bytes: &[u8], rng: &mut Rng, tally: &mut Tally) -
             }
         }
     }
-    let (trans, offs) = debug_numbers(&dbg);
+    let (trans, offs) = zone_numbers(&built);
     tally.totality_sweeps += 1;
     if let Some(p) = totality(&z, &trans, &offs, rng) {
         return prob(format!("lookup-panic:{}", panic_loc(&p)), format!("{}: {}", input.what, p));
@@ -755,7 +741,7 @@ fn public_route_tz(bytes: Option<&Arc<Vec<u8>>>, tz: &str, z: Option<&Zone>, rng
     faults.eintr_at.sort();
     faults.eintr_at.dedup();
     let mut probes: Vec<(Api, i64)> = Vec::new();
-    let (trans, _) = debug_numbers(&z.debug());
+    let (trans, _) = debug_numbers(z);
     for &t in trans.iter().take(6) {
         if t > -6_000_000_000_000 && t < 6_000_000_000_000 {
             probes.push((Api::FromUtc, t));
@@ -1063,7 +1049,7 @@ pub fn shard(part: Part, seed: u64, tier: &str, from: u64, to: u64, out: &str) -
                                 && text != "localtime";
                             if plain {
                                 let z = guarded(|| Zone::from_posix_rule(text.as_bytes(), false)).ok().and_then(|r| r.ok());
-                                let offs_ok = z.as_ref().map_or(true, |z| debug_numbers(&z.debug()).1.iter().all(|o| o.abs() < 86_400));
+                                let offs_ok = z.as_ref().map_or(true, |z| debug_numbers(z).1.iter().all(|o| o.abs() < 86_400));
                                 if offs_ok {
                                     sink.sh.tally.public_route_checks += 1;
                                     *sink.sh.fired.entry("public_route_on_tz_string".into()).or_insert(0) += 1;
@@ -1268,7 +1254,7 @@ pub fn run(opts: &Opts, only: Option<Part>) -> i32 {
             coverage: cov,
             assumptions: vec![
                 "must-reject is asserted only where the injector constructed an invalid input; must-accept only for writer output within chrono's documented restrictions (3-7 character alphanumeric/+- abbreviations, footer consistent with the last transition) and for strings the reference reader places inside the two POSIX forms".into(),
-                "allocation bound: largest single request <= 8 x input + 1 KiB, total <= 64 x input + 4 KiB (counting allocator)".into(),
+                "allocation bound: largest single request <= 8 x input + 4 KiB, total <= 64 x input + 16 KiB (counting allocator)".into(),
                 "overflow counts as a panic: the simulator is built with overflow-checks and debug-assertions on".into(),
                 "truncation is enumerated completely per generated file; all other fault kinds are sampled".into(),
             ],
